@@ -8,16 +8,24 @@ Author : Shunning Jiang
 Date   : July 7, 2017
 """
 
+class Constraint( tuple ):
+  """ ( x, y, is_equal ). Python turns the chain U(a) < U(b) < U(c) into
+  (U(a) < U(b)) and (U(b) < U(c)), which silently drops the first
+  constraint: a constraint therefore refuses to be used as a condition. """
+  def __bool__( self ):
+    raise TypeError( "A constraint cannot be chained (U(a) < U(b) < U(c)) or "
+                     "used as a condition: write U(a) < U(b), U(b) < U(c)." )
+
 class FuncConstraint:
   def __init__( self, func ): self.func = func
-  def __lt__( self, other ):  return (self, other, False)
-  def __gt__( self, other ):  return (other, self, False)
-  def __eq__( self, other ):  return (self, other, True)
+  def __lt__( self, other ):  return Constraint( (self, other, False) )
+  def __gt__( self, other ):  return Constraint( (other, self, False) )
+  def __eq__( self, other ):  return Constraint( (self, other, True) )
 
 class ValueConstraint:
   def __init__( self, var ):  self.var = var
-  def __lt__( self, other ):  return (self, other, False)
-  def __gt__( self, other ):  return (other, self, False)
+  def __lt__( self, other ):  return Constraint( (self, other, False) )
+  def __gt__( self, other ):  return Constraint( (other, self, False) )
 
 class U(FuncConstraint): pass
 class M(FuncConstraint): pass
